@@ -665,10 +665,8 @@ def substitution(ctx, mod, fns):
                 verdict = "inconclusive" if hasattr(got, "reason") else same     # an unmodelled cell is not evidence of a wrong one
                 ctx.ob("C16.substitution", f"save_scsv: column {names[k]} ({schema['fields'][k].get('type')}), row {r_}: {kind}", verdict,
                        f"wrote {got!r}, expected {w!r}", loc)
-    pc = fns["_parse_scsv_cell"]
-    ifs = [i for i in ast.walk(pc) if isinstance(i, ast.If) and "missingstr" in ast.unparse(i.test)]
-    ok2 = bool(ifs) and all(any(isinstance(r, ast.Return) and "fillval" in ast.unparse(r) or (isinstance(r, ast.Return) and "nan" in ast.unparse(r)) for r in ast.walk(i)) for i in ifs)
-    ctx.ob("C16.substitution", "_parse_scsv_cell:missing marker reads back as the typed fill", ok2, "", L(mod, pc, ctx))
+    # (that the missing marker reads back as the typed fill is decided by interpretation in C16.cell-parser; a text rule on the shape of the
+    # `if` that used to sit here fired on an inverted guard - benign round 12)
 
 
 Q0, Q1 = "\u27e6", "\u27e7"
